@@ -125,8 +125,12 @@ var funcmap = FuncMap{
 		}
 
 		for i := 0; i < len(a); i += 2 {
-			m.items[convert(a[i]).String()] = convert(a[i+1])
-			m.order = append(m.order, convert(a[i]).String())
+			key := convert(a[i]).String()
+			// a key written twice keeps its first position and gets the last value
+			if _, known := m.items[key]; !known {
+				m.order = append(m.order, key)
+			}
+			m.items[key] = convert(a[i+1])
 		}
 		return m
 	},
